@@ -12,6 +12,10 @@ interleaved histories (`copy_independent`, `interleave_projection`, `interleave_
 interleaved histories.  The observers are model functions of their own (`observers_refine…`), the size type is the
 chain extracted from the header (`size_fits`, `size_type_minimal_partial`), `remove_if`'s element move assignment is
 modelled (`eraseIf_refines` for every element kind), and what a moved-from object holds is stated by `moved_from_…`.
+Arguments that refer to an element of the vector itself (`v.insert(pos, v[i])` …) are operations of the model language,
+read through the reference when the code reads them (`insert_alias_eq`, `insertFill_alias_eq`, `push_alias_eq`,
+`resize_alias_eq`, `ipv_push_alias_eq`, `alias_spec`); the relational operators are modelled through the element's `<` alone /
+`==` alone and proved against `operator==` + `operator<=>` for any asymmetric `lt` and any `eq` (`relOps_refines`).
 inplace_vector: only
 the members etl::inplace_vector has (`supports .ipv`); the rest of std::inplace_vector's interface is the known
 finding F-C01-inplace-vector-missing-members (`ipv_step_partial`, `ipv_missing_counterexample`).
@@ -150,9 +154,155 @@ example : naiveRemove .hd (modPred 2 1) [4, 6, 1, 8] 0 0 4 = .ok ([EMPTIED, EMPT
     ∧ removeIf .hd (modPred 2 1) [4, 6, 1, 8] = .ok ([4, 6, 8, EMPTIED], 3)
     ∧ naiveRemove .nt (modPred 2 1) [4, 6, 1, 8] 0 0 4 = .ok ([4, 6, 8, MOVED], 3) := by decide
 
-/-- the six relational operators as tetl derives them from `equal` and `lexicographical_compare`
-    are `=`, `≠`, and the lexicographic `<`, `≤`, `>`, `≥` -/
-theorem relOps_refines (a b : V) : relOps a b = .ok (Spec.rels a b) := relOps_eq a b
+/-- **the six relational operators**, for an element type with *any* `operator<` (`lt`, asymmetric — every strict weak
+    order is) and *any* `operator==` (`eq`), nothing assumed between the two: `==` / `!=` as tetl derives them from
+    `equal` (through `eq` alone) and `<`, `<=`, `>`, `>=` as it derives them from `lexicographical_compare` (through
+    `lt` alone: `a <= b` is `!(b < a)`, `a >= b` is `!(a < b)`) are `a == b`, its negation, and `(a <=> b) < 0`,
+    `<= 0`, `> 0`, `>= 0` of [container.opt.reqmts] with *synth-three-way* -/
+theorem relOps_refines (lt eq : Nat → Nat → Bool) (hasym : ∀ x y, lt x y = true → lt y x = false) (a b : V) :
+    relOps lt eq a b = .ok (Spec.rels lt eq a b) := relOps_eq lt eq hasym a b
+
+/-- the same for any strict weak order `lt` and any `eq` -/
+theorem relOps_refines_strict_weak (lt eq : Nat → Nat → Bool) (hsw : StrictWeak lt) (a b : V) :
+    relOps lt eq a b = .ok (Spec.rels lt eq a b) := by
+  refine relOps_eq lt eq ?_ a b
+  intro x y hxy
+  cases hyx : lt y x
+  · rfl
+  · have := hsw.2.1 x y x hxy hyx
+    rw [hsw.1 x] at this
+    cases this
+
+/-- the element kinds of the harness: each `operator<` is a strict weak order; for the key/payload pair the values
+    `2k` and `2k+1` are equivalent under `<` and not equal under `==` -/
+theorem kinds_strict_weak (k : Kind) : StrictWeak (ltOf k) := by
+  refine ⟨?_, ?_, ?_⟩
+  · intro x; cases k <;> simp [ltOf]
+  · intro x y z h1 h2
+    cases k <;> simp only [ltOf, decide_eq_true_eq] at h1 h2 ⊢ <;> omega
+  · intro x y z h1 h2 h3 h4
+    cases k <;> simp only [ltOf, decide_eq_false_iff_not] at h1 h2 h3 h4 ⊢ <;> omega
+
+example : ltOf .kp 4 5 = false ∧ ltOf .kp 5 4 = false ∧ eqOf .kp 4 5 = false ∧ ltOf .kp 3 4 = true := by decide
+
+/-- hence, for every element kind of the harness (the key/payload pair included) -/
+theorem relOps_refines_kinds (k : Kind) (a b : V) :
+    relOps (ltOf k) (eqOf k) a b = .ok (Spec.rels (ltOf k) (eqOf k) a b) :=
+  relOps_refines_strict_weak _ _ (kinds_strict_weak k) a b
+
+/-- for an element type whose `==` is the equality of the values and whose `<` is a total order on them — and only
+    under these two extra hypotheses — `a <= b` is also `a < b || a == b` and `a >= b` is `a > b || a == b` -/
+theorem relOps_total_order (lt eq : Nat → Nat → Bool) (hasym : ∀ x y, lt x y = true → lt y x = false)
+    (htri : ∀ x y, lt x y = false → lt y x = false → x = y) (heq : ∀ x y, eq x y = (x == y)) (a b : V) :
+    relOps lt eq a b = .ok [a == b, !(a == b), Spec.cmp3 lt a b == .lt, (Spec.cmp3 lt a b == .lt) || a == b,
+      Spec.cmp3 lt b a == .lt, (Spec.cmp3 lt b a == .lt) || a == b] := by
+  rw [relOps_eq lt eq hasym a b, rels_total_order lt eq hasym htri heq a b]
+
+/-- in particular for naturals under `<` and `=` (element kinds `triv`, `nt`, `hd`): `=`, `≠` and the lexicographic
+    `<`, `≤`, `>`, `≥` (the statement this file had before the element's `<` and `==` became parameters) -/
+theorem relOps_refines_nat (a b : V) :
+    relOps (fun x y => decide (x < y)) (fun x y => x == y) a b = .ok (Spec.relsTotal a b) := by
+  rw [relOps_eq _ _ (by intro x y h; simp at h ⊢; omega) a b, rels_nat]
+
+-- the two extra hypotheses are needed (test on one sample): for the key/payload pair `[4] <= [5]` and `[4] >= [5]`
+-- hold although neither `[4] < [5]` nor `[4] == [5]` does — the seeded change C01-r2-le-ge-via-equal answers `false`
+example : relOps (ltOf .kp) (eqOf .kp) [4] [5] = .ok [false, true, false, true, false, true]
+    ∧ Spec.rels (ltOf .kp) (eqOf .kp) [4] [5] = [false, true, false, true, false, true]
+    ∧ ((Spec.cmp3 (ltOf .kp) [4] [5] == .lt) || Spec.eqList (eqOf .kp) [4] [5]) = false := by decide
+example : relOps (ltOf .kp) (eqOf .kp) [2, 7] [3, 9] = .ok [false, true, true, true, false, false] := by decide
+
+/-! ## arguments that refer to an element of the vector itself
+
+`v.insert(pos, v[i])`, `v.insert(pos, n, v[i])`, `v.emplace(pos, v[i])`, `v.push_back(v[i])`, `v.emplace_back(v[i])`,
+`v.resize(n, v[i])`, `s.push(s.top())`: [sequence.reqmts] requires the result of the same call with a copy of the
+element taken before the call.  The model reads the argument through the reference at the moment the code reads it
+(`Arg`, `rdArg`); the theorems say that this moment is early enough in every one of these members.  The operations
+are part of `Op` (`pushA`, `pushTop`, `insertA`, `insertFillA`, `resizeValA`; inplace_vector: `tryPushA`, `uncheckedA`), hence of `step_refines` and
+`history_refines` below. -/
+
+/-- the members with a reference argument (`…A`), given a value that lives outside the vector, are the plain members -/
+theorem alias_members_generalise (cap : Nat) (d : V) (pos n x : Nat) :
+    pushBackA cap d (.val x) = pushBack cap d x ∧ emplaceBackA cap d (.val x) = emplaceBack cap d x
+      ∧ insertCrefA cap d pos (.val x) = insertCref cap d pos x ∧ insertFillA cap d pos n (.val x) = insertFill cap d pos n x
+      ∧ emplaceA cap d pos (.val x) = insertRv cap d pos x ∧ resizeValA cap d n (.val x) = resizeVal cap d n x
+      ∧ assignFillA cap d n (.val x) = assignFill cap d n x :=
+  ⟨pushBackA_val cap d x, emplaceBackA_val cap d x, insertCrefA_val cap d pos x, insertFillA_val cap d pos n x,
+   emplaceA_val cap d pos x, resizeValA_val cap d n x, assignFillA_val cap d n x⟩
+
+/-- `v.insert(pos, v[i])` and `v.emplace(pos, v[i])`: the list with the value element `i` had before the call
+    inserted at `pos`, i.e. exactly what the same call returns for a copy of `v[i]` taken before the call -/
+theorem insert_alias_eq (cap : Nat) (d : V) (pos i : Nat) (hc : cap < 2 ^ 64)
+    (hp : pos ≤ d.length) (hn : d.length < cap) (hi : i < d.length) :
+    insertCrefA cap d pos (.elem i) = .ok (Spec.insertAt d pos [d[i]], pos)
+      ∧ insertCrefA cap d pos (.elem i) = insertCref cap d pos d[i]
+      ∧ emplaceA cap d pos (.elem i) = .ok (Spec.insertAt d pos [d[i]], pos)
+      ∧ emplaceA cap d pos (.elem i) = insertRv cap d pos d[i] :=
+  ⟨insertCrefA_elem d pos i hc hp hn hi, by rw [insertCrefA_elem d pos i hc hp hn hi, insertCref_eq d pos _ hc hp hn],
+   emplaceA_elem d pos i hc hp hn hi, by rw [emplaceA_elem d pos i hc hp hn hi, insertRv_eq d pos _ hc hp hn]⟩
+
+example : insertCrefA 8 [10, 20, 30, 40] 0 (.elem 2) = .ok ([30, 10, 20, 30, 40], 0) := by decide
+
+/-- `v.insert(pos, n, v[i])` -/
+theorem insertFill_alias_eq (cap : Nat) (d : V) (pos n i : Nat) (hc : cap < 2 ^ 64)
+    (hp : pos ≤ d.length) (hn : d.length + n ≤ cap) (hi : i < d.length) :
+    insertFillA cap d pos n (.elem i) = .ok (Spec.insertAt d pos (List.replicate n d[i]), pos)
+      ∧ insertFillA cap d pos n (.elem i) = insertFill cap d pos n d[i] :=
+  ⟨insertFillA_elem d pos n i hc hp hn hi, by rw [insertFillA_elem d pos n i hc hp hn hi, insertFill_eq d pos n _ hc hp hn]⟩
+
+example : insertFillA 8 [10, 20, 30] 1 2 (.elem 1) = .ok ([10, 20, 20, 20, 30], 1) := by decide
+
+/-- `v.push_back(v[i])`, `v.emplace_back(v[i])`, `v.push_back(v.back())` / `s.push(s.top())` / `s.emplace(s.top())` -/
+theorem push_alias_eq (cap : Nat) (d : V) (i : Nat) (e : Bool) (hc : cap < 2 ^ 64) (hn : d.length < cap) (hi : i < d.length) :
+    pushBackA cap d (.elem i) = .ok (d ++ [d[i]]) ∧ emplaceBackA cap d (.elem i) = .ok (d ++ [d[i]])
+      ∧ pushTop cap d e = .ok (d ++ [d[d.length - 1]]) :=
+  ⟨pushBackA_elem hc hn hi, emplaceBackA_elem hc hn hi, pushTop_eq d e hc hn (by omega)⟩
+
+example : pushTop 3 [4, 5] false = .ok [4, 5, 5] ∧ pushBackA 3 [4, 5] (.elem 0) = .ok [4, 5, 4] := by decide
+
+/-- `v.resize(n, v[i])`, growing or shrinking -/
+theorem resize_alias_eq (cap : Nat) (d : V) (n i : Nat) (hc : cap < 2 ^ 64) (hcap : d.length ≤ cap) (hn : n ≤ cap)
+    (hi : i < d.length) :
+    resizeValA cap d n (.elem i) = .ok (Spec.resize d n d[i]) ∧ resizeValA cap d n (.elem i) = resizeVal cap d n d[i] :=
+  ⟨resizeValA_elem d n i hc hcap hn hi, by rw [resizeValA_elem d n i hc hcap hn hi, resizeVal_eq d n _ hc hcap hn]⟩
+
+example : resizeValA 6 [7, 8] 5 (.elem 0) = .ok [7, 8, 7, 7, 7] := by decide
+
+/-- inplace_vector: `c.unchecked_push_back(c[i])` / `unchecked_emplace_back(c[i])` append the old value of element `i`
+    and return a reference to it; `c.try_push_back(c[i])` / `try_emplace_back(c[i])` do the same, or return null and
+    change nothing when full; with a value from outside they are the plain members -/
+theorem ipv_push_alias_eq (cap : Nat) (d : V) (i : Nat) (hc : cap < 2 ^ 64) (hcap : d.length ≤ cap) (hi : i < d.length) :
+    (d.length < cap → ipvUncheckedA cap d (.elem i) = .ok (d ++ [d[i]], d[i]))
+      ∧ ipvTryA cap d (.elem i) = .ok (if d.length = cap then (d, none) else (d ++ [d[i]], some d[i]))
+      ∧ (∀ x, ipvUncheckedA cap d (.val x) = ipvUnchecked cap d x ∧ ipvTryA cap d (.val x) = ipvTry cap d x) :=
+  ⟨fun h => ipvUncheckedA_elem d i hc h hi, ipvTryA_elem d i hc hcap hi,
+   fun x => ⟨ipvUncheckedA_val cap d x, ipvTryA_val cap d x⟩⟩
+
+example : ipvTryA 3 [4, 5] (.elem 0) = .ok ([4, 5, 4], some 4) ∧ ipvTryA 2 [4, 5] (.elem 0) = .ok ([4, 5], none) := by decide
+
+/-- on the spec side an operation with an aliasing argument *is* the plain operation with the value the element had
+    before the call -/
+theorem alias_spec (cap : Nat) (l : List Nat) (ov pos n i : Nat) (hi : i < l.length) :
+    Spec.apply1 cap (.pushA ov i) l = Spec.apply1 cap (.push ov l[i]) l
+      ∧ Spec.apply1 cap (.insertA ov pos i) l = Spec.apply1 cap (.insert1 ov pos l[i]) l
+      ∧ Spec.apply1 cap (.insertFillA pos n i) l = Spec.apply1 cap (.insertFill pos n l[i]) l
+      ∧ Spec.apply1 cap (.resizeValA n i) l = Spec.apply1 cap (.resizeVal n l[i]) l
+      ∧ Spec.apply1 cap (.pushTop ov) l = Spec.apply1 cap (.push ov l[l.length - 1]) l
+      ∧ Spec.apply1 cap (.tryPushA ov i) l = Spec.apply1 cap (.tryPush ov l[i]) l
+      ∧ Spec.apply1 cap (.uncheckedA ov i) l = Spec.apply1 cap (.unchecked ov l[i]) l := by
+  simp [Spec.apply1, withElem_lt hi, withElem_lt (show l.length - 1 < l.length by omega)]
+
+/-- `v.assign(n, v[i])` is different: `clear()` runs first, `insert` then reads a destroyed element.  [sequence.reqmts]
+    excludes the call ("t is not a reference into a"); it is not an operation of the histories. -/
+theorem assign_alias_reads_destroyed (cap : Nat) (d : V) (n i : Nat) (hc : cap < 2 ^ 64) (hn : n ≤ cap) (h0 : 0 < n) :
+    assignFillA cap d n (.elem i) = .error .oob := assignFillA_elem_oob d n i hc hn h0
+
+example : assignFillA 4 [1, 2] 2 (.elem 0) = .error .oob := by decide
+
+-- sensitivity (test on one sample): a single-element fast path that shifts the tail up first and reads the argument
+-- afterwards (seeded change C01-r2-insert-shift-alias) inserts the wrong value; append + rotate does not
+example : insertShiftLate [10, 20, 30, 40] 0 (.elem 2) = .ok [20, 10, 20, 30, 40]
+    ∧ insertShiftLate [10, 20, 30, 40] 0 (.val 30) = .ok [30, 10, 20, 30, 40]
+    ∧ insertCrefA 8 [10, 20, 30, 40] 0 (.elem 2) = .ok ([30, 10, 20, 30, 40], 0) := by decide
 
 /-- member `swap` (three moves through a temporary) exchanges the contents; self-swap is the identity -/
 theorem swap_refines (cap : Nat) (k : Kind) (a b : V) (hc : cap < 2 ^ 64) (ha : a.length ≤ cap) (hb : b.length ≤ cap) :
@@ -200,8 +350,8 @@ theorem init_inv (ty : Ty) (cap : Nat) (kind : Kind) (hc : cap < 2 ^ 64) : Inv (
   simp [Sys.init] at hd
   simp [hd]
 
-theorem init_rel (ty : Ty) (cap : Nat) (kind : Kind) : Rel (Sys.init ty cap kind) (Spec.SSys.init cap) := by
-  refine ⟨rfl, rfl, ?_⟩
+theorem init_rel (ty : Ty) (cap : Nat) (kind : Kind) : Rel (Sys.init ty cap kind) (Spec.SSys.init cap kind) := by
+  refine ⟨rfl, rfl, ?_, rfl⟩
   intro i l h
   simp only [Spec.SSys.init, Sys.init] at h ⊢
   match i with
@@ -273,9 +423,10 @@ theorem history_refines (ops : List (Nat × Op)) (s : Sys) (sp : Spec.SSys)
 
 /-- from the initial state (four empty objects) of any type, capacity and element kind -/
 theorem history_refines_init (ty : Ty) (cap : Nat) (kind : Kind) (hc : cap < 2 ^ 64) (ops : List (Nat × Op))
-    (hv : Spec.validHist ty (Spec.SSys.init cap) ops = true) :
+    (hv : Spec.validHist ty (Spec.SSys.init cap kind) ops = true) :
     ∃ s' outs, run (Sys.init ty cap kind) ops = .ok (s', outs) ∧ Inv s' ∧ s'.cap = cap
-      ∧ Rel s' (Spec.run (Spec.SSys.init cap) ops).1 ∧ OutsAgree outs (Spec.run (Spec.SSys.init cap) ops).2 := by
+      ∧ Rel s' (Spec.run (Spec.SSys.init cap kind) ops).1
+      ∧ OutsAgree outs (Spec.run (Spec.SSys.init cap kind) ops).2 := by
   obtain ⟨s', outs, h1, h2, h3, _, h5, h6⟩ :=
     history_refines ops _ _ (init_inv ty cap kind hc) (init_rel ty cap kind) hv
   exact ⟨s', outs, h1, h2, h3, h5, h6⟩
@@ -284,7 +435,8 @@ theorem history_refines_init (ty : Ty) (cap : Nat) (kind : Kind) (hc : cap < 2 ^
 theorem history_refines_modelstate_init (ty : Ty) (cap : Nat) (kind : Kind) (hc : cap < 2 ^ 64) (ops : List (Nat × Op))
     (hv : validRun (Sys.init ty cap kind) ops = true) :
     ∃ s' outs, run (Sys.init ty cap kind) ops = .ok (s', outs) ∧ Inv s' ∧ s'.cap = cap
-      ∧ Rel s' (Spec.run (Spec.SSys.init cap) ops).1 ∧ OutsAgree outs (Spec.run (Spec.SSys.init cap) ops).2 := by
+      ∧ Rel s' (Spec.run (Spec.SSys.init cap kind) ops).1
+      ∧ OutsAgree outs (Spec.run (Spec.SSys.init cap kind) ops).2 := by
   obtain ⟨s', outs, h1, h2, h3, _, h5, h6⟩ :=
     history_refines_modelstate ops _ _ (init_inv ty cap kind hc) (init_rel ty cap kind) hv
   exact ⟨s', outs, h1, h2, h3, h5, h6⟩
@@ -294,6 +446,14 @@ example : Spec.validHist .sv (Spec.SSys.init 3)
      (1, .clear), (0, .swap 2)] = true := by decide
 example : Spec.validHist .ipv (Spec.SSys.init 1) [(0, .tryPush 0 5), (0, .tryPush 1 6), (1, .moveCtor 0), (0, .clear),
      (0, .unchecked 0 3), (0, .pop)] = true := by
+  decide
+-- histories with aliasing arguments and with the key/payload element kind
+example : Spec.validHist .sv (Spec.SSys.init 6 .kp)
+    [(0, .assignRange [4, 2]), (0, .insertA 0 0 1), (0, .pushA 2 0), (0, .insertFillA 1 2 3), (0, .resizeValA 6 0),
+     (1, .push 0 5), (1, .pushTop 0), (0, .cmp 1)] = true := by decide
+example : Spec.validHist .ipv (Spec.SSys.init 3) [(0, .tryPush 0 5), (0, .tryPushA 0 0), (0, .uncheckedA 2 1), (0, .tryPushA 2 2)] = true := by
+  decide
+example : Spec.validHist .stk (Spec.SSys.init 3 .kp) [(0, .push 0 4), (0, .pushTop 0), (1, .push 0 5), (0, .cmp 1)] = true := by
   decide
 -- a moved-from object has no specified size: `pop` on it is not a valid step by the standard's book-keeping
 -- (test on one sample), although the model state knows what etl left there
@@ -424,7 +584,7 @@ theorem moved_from_self (cap : Nat) (d : V) (hc : cap < 2 ^ 64) : moveAssignSelf
 
 /-- move construction of inplace_vector: trivial `T` — the source is untouched; otherwise the source is empty -/
 theorem moved_from_inplace_vector (cap : Nat) (k : Kind) (o : V) (h : o.length ≤ cap) :
-    ipvMoveCtor cap k o = .ok (o, match k with | .triv => o | _ => []) := ipvMoveCtor_eq k o h
+    ipvMoveCtor cap k o = .ok (o, match k with | .triv | .kp => o | _ => []) := ipvMoveCtor_eq k o h
 
 /-- a moved-from object of any of the three types takes every operation without a precondition on its contents:
     on the spec side it is unspecified (`none`), the step is valid by the standard's book-keeping, hence (by
@@ -505,15 +665,19 @@ theorem ipv_missing_members :
       ∧ (∀ n x, supports .ipv (.ctorNVal n x) = false) ∧ (∀ xs, supports .ipv (.ctorRange xs) = false)
       ∧ (∀ j, supports .ipv (.copyAssign j) = false) ∧ (∀ j, supports .ipv (.moveAssign j) = false)
       ∧ (∀ j, supports .ipv (.swap j) = false) ∧ (∀ x, supports .ipv (.eraseVal x) = false)
-      ∧ (∀ m r, supports .ipv (.eraseIf m r) = false) ∧ (∀ j, supports .ipv (.cmp j) = false) := by
-  refine ⟨?_, ?_, ?_, ?_, ?_, ?_, ?_, ?_, ?_, ?_, ?_, ?_, ?_, ?_, ?_, ?_, ?_, ?_, ?_, ?_⟩ <;> intros <;> rfl
+      ∧ (∀ m r, supports .ipv (.eraseIf m r) = false) ∧ (∀ j, supports .ipv (.cmp j) = false)
+      ∧ (∀ ov i, supports .ipv (.pushA ov i) = false) ∧ (∀ ov, supports .ipv (.pushTop ov) = false)
+      ∧ (∀ ov p i, supports .ipv (.insertA ov p i) = false) ∧ (∀ p n i, supports .ipv (.insertFillA p n i) = false)
+      ∧ (∀ n i, supports .ipv (.resizeValA n i) = false) := by
+  refine ⟨?_, ?_, ?_, ?_, ?_, ?_, ?_, ?_, ?_, ?_, ?_, ?_, ?_, ?_, ?_, ?_, ?_, ?_, ?_, ?_, ?_, ?_, ?_, ?_, ?_⟩ <;> intros <;> rfl
 
 /-- … and the members it has -/
 theorem ipv_present_members :
     (∀ ov x, supports .ipv (.tryPush ov x) = true) ∧ (∀ ov x, supports .ipv (.unchecked ov x) = true)
+      ∧ (∀ ov i, supports .ipv (.tryPushA ov i) = true) ∧ (∀ ov i, supports .ipv (.uncheckedA ov i) = true)
       ∧ supports .ipv .pop = true ∧ supports .ipv .clear = true ∧ (∀ j, supports .ipv (.copyCtor j) = true)
       ∧ (∀ j, supports .ipv (.moveCtor j) = true) ∧ supports .ipv .dump = true := by
-  refine ⟨?_, ?_, rfl, rfl, ?_, ?_, rfl⟩ <;> intros <;> rfl
+  refine ⟨?_, ?_, ?_, ?_, rfl, rfl, ?_, ?_, rfl⟩ <;> intros <;> rfl
 
 /-- inplace_vector offers no assignment (known finding F-C01-inplace-vector-not-assignable): the
     histories of that type contain none -/
